@@ -53,6 +53,9 @@ RULE = ('cells: diagonal, rotated/left-handed mutually orthogonal, LAMMPS-tricli
         '1e-12..1e12) with pairs that are periodic copies of each other up to 0 / 1 ulp / 1e-15..1e-3 L; displacement '
         'cases whose atoms move 0.47..1.0 of one of the shortest lattice combinations (all moves below half the shortest '
         'edge); boolean-mask selectors; input forms rowstrided / colwindow / reversed. '
+        'Final round: pairs of LARGE systems (2^18 + 2..2000 atoms and a power of two +- 1 per quick run; thorough up to '
+        '3 * 2^18 + 1) whose cells and / or flags differ, positions a function of a short specification on the 2^k/1024 '
+        'grid, displacement with all four references + dvect / dmag / System.dvect / System.dmag, every row decided exactly. '
         'distinct = distinct canonical case; non-trivial = at least one periodic direction and a non-zero separation')
 ASSUMPTIONS = [
     'IEEE double arithmetic of the compiled loop is exact on multiples of 2^k/64 below 2^k * 2^12, -40 <= k <= 40 '
@@ -1464,6 +1467,36 @@ FIXED_CASES = [
 ]
 
 
+def correspond_big(ctx, rng):
+    """model tie above the sizes at which block-wise / vectorised paths switch on: displacement (both references) of two
+    large systems is computed by the real code ONCE on all atoms; the model (atom by atom: `displacement_atomwise`)
+    is asked for ~100 of the atoms (first / last rows, rows around every multiple of 2^16, random rows) as a small pair of
+    systems, and the rows of the large result must be those, bit for bit."""
+    import numpy as np
+    import atomman as am
+    for n in [2 ** 18 + rng.randint(2, 2000)] + ([2 ** 19 + rng.randint(2, 8000), 2 ** 18 + 1] if ctx.thorough else []):
+        spec = gen_big_disp(rng, n)
+        S = big_systems(np, spec)
+        pos0, pos1 = S['P0'].astype(float) * S['unit'], S['P1'].astype(float) * S['unit']
+        s0d, s1d = spec['sys0'], spec['sys1']
+        s0 = _mk_system(am, np, s0d['vects'], s0d['origin'], s0d['pbc'], pos0)
+        s1 = _mk_system(am, np, s1d['vects'], s1d['origin'], s1d['pbc'], pos1)
+        rows = sorted({r for b in range(0, n + 1, 2 ** 16) for r in (b - 1, b, b + 1) if 0 <= r < n} | {n - 1} |
+                      {rng.randrange(n) for _ in range(80)})
+        for ref in ('initial', 'final'):
+            small = {'op': 'disp', 'regime': 'exact', 'ref': ref,
+                     'sys0': {**s0d, 'pos': pos0[rows].tolist()}, 'sys1': {**s1d, 'pos': pos1[rows].tolist()}}
+            lines = lines_for(small)
+            out = ctx.driver.ask_many(lines)
+            r = _call(lambda: am.displacement(s0, s1, box_reference=ref))
+            impl = {'disp': (r[0], np.asarray(r[1])[rows] if r[0] == 'ok' and np.asarray(r[1]).shape == (n, 3) else r[1])}
+            ctx.stats.case('bigdisp', (spec['posseed'], n, ref), nontrivial=True, sample={**spec, 'ref': ref})
+            for key, msg in compare(small, impl, out):
+                ctx.disagree('big:' + key, f'two systems of {n} atoms, rows {rows[:6]}... of the result: ' + msg[:1500],
+                             {'op': 'bigdisp', 'case': spec, 'call': f'disp:{ref}'})
+        ctx.extra.setdefault('big_tie_sizes', []).append(n)
+
+
 def correspond(ctx):
     rng = ctx.rng
     cases = [dict(c) for c in FIXED_CASES]
@@ -1478,6 +1511,7 @@ def correspond(ctx):
         cases.append({'op': 'slice', 'n': rng.randint(0, 9), 'a': ch(), 'b': ch(),
                       'c': rng.choice([None, 1, 2, 3, -1, -2, -3, 0, 5, -7])})
     run_cases(ctx, cases)
+    correspond_big(ctx, rng)
     ties = [t for c in cases for t in c.get('_ties', [])]
     ctx.extra['tolerance_pairs'] = len(ties)
     ctx.extra['tolerance_pairs_exempt_as_ties'] = sum(ties)
@@ -1598,7 +1632,7 @@ STAT_KEYS = ('pairs', 'true_nearest_claimed', 'claimed_ortho', 'claimed_width', 
              'inside_no_claim_not_nearest', 'outside_not_nearest', 'enumeration_skipped', 'lattice_points_enumerated',
              'one_to_many', 'many_to_one', 'many_to_many', 'refusals_checked', 'history_queries', 'history_steps',
              'history_aborted', 'pairs_after_inplace_change', 'shift_beyond_one', 'disp_cases',
-             'disp_all_moves_below_half_edge', 'disp_small_moves_not_direct', 'copy_pairs_near_zero')
+             'disp_all_moves_below_half_edge', 'disp_small_moves_not_direct', 'copy_pairs_near_zero', 'big_cases', 'big_rows')
 
 
 def new_stats():
@@ -1816,6 +1850,237 @@ def oracle_disp(ctx, case, stats):
             stats['disp_small_moves_not_direct'] += 1
     clauses(ctx, stats, 'disp:', lambda k: who + f' atom {k}', v, refd['origin'], refd['pbc'], pairs, rows, None, exact, rep,
             claim=True)
+
+
+# ----------------------------------------------------------------------------------------
+# large systems (block-wise / vectorised code paths that switch on at a SIZE): a short specification, positions derived
+# from it with a numpy generator, every row decided exactly in int64 arithmetic
+# ----------------------------------------------------------------------------------------
+BIG_UNIT = 1024          # positions and cell vectors are whole multiples of 2^k / 1024
+BIG_EDGE_SIZES = [2 ** 18 + 1, 2 ** 18, 2 ** 18 - 1, 2 ** 17 + 1, 2 ** 16 + 1, 2 ** 16, 2 ** 15 + 1]
+BIG_REFS = ['initial', 'final', 'default', None]
+
+
+def gen_big_disp(rng, n):
+    """two LARGE systems of n atoms whose cells and / or periodicity flags differ (strained copy, the same lattice described
+    by other vectors, an unrelated cell, the same cell with other flags, a shifted origin); positions are a function of
+    `posseed` (see big_systems): in / on / outside cell 0; moves that are tiny, about half of a lattice combination of
+    either cell, anywhere in cell 1, or tiny plus a few whole cells."""
+    k = gen_scale_exp(rng)
+    f = 2.0 ** k
+    while True:
+        v0, o0 = gen_cell(rng, rng.choice(CELL_KINDS))
+        mode = rng.choice(['strained', 'strained', 'relabelled', 'other', 'same', 'origin'])
+        v1, o1 = [list(r) for r in v0], list(o0)
+        if mode == 'strained':
+            gs = [rng.choice([1.125, 0.875, 1.0, 1.25, 1.5]) for _ in range(3)]
+            if gs == [1.0, 1.0, 1.0]:
+                gs[rng.randrange(3)] = 1.125
+            v1 = [[gs[i] * x for x in v0[i]] for i in range(3)]
+        elif mode == 'relabelled':
+            i, j = rng.sample(range(3), 2)
+            s = rng.choice([-1.0, 1.0, 2.0])
+            v1[i] = [v0[i][c] + s * v0[j][c] for c in range(3)]
+        elif mode == 'other':
+            v1, o1 = gen_cell(rng, rng.choice(CELL_KINDS))
+        elif mode == 'origin':
+            o1 = [x + rng.randint(-16, 16) / 8.0 for x in o0]
+        if max(abs(x) for r in v1 for x in r) <= 64 and abs(_det3(v1)) >= 0.125:
+            break
+    pbc0 = gen_pbc(rng)
+    if not any(pbc0):
+        pbc0[rng.randrange(3)] = True
+    pbc1 = list(pbc0)
+    if mode in ('same', 'origin') or rng.random() < 0.7:
+        for i in rng.sample(range(3), rng.choice([1, 1, 2])):
+            pbc1[i] = not pbc1[i]
+    return {'op': 'bigdisp', 'n': n, 'k': k, 'mode': mode, 'posseed': rng.randrange(2 ** 32),
+            'sys0': {'vects': _sc(v0, f), 'origin': _sc(o0, f), 'pbc': pbc0},
+            'sys1': {'vects': _sc(v1, f), 'origin': _sc(o1, f), 'pbc': pbc1}}
+
+
+def _big_int_rows(np, arr, inv):
+    """floats -> whole numbers of the unit (int64), None when some entry is off the grid / not finite / huge."""
+    a = np.asarray(arr, dtype=float) * inv
+    if not np.all(np.isfinite(a)) or np.any(np.abs(a) >= 2.0 ** 28) or np.any(a != np.rint(a)):
+        return None
+    return a.astype(np.int64)
+
+
+def big_systems(np, spec):
+    """the integer cell vectors / origins (unit 2^k/1024) and integer positions of the two systems of a specification."""
+    inv = BIG_UNIT / 2.0 ** spec['k']
+    V0, V1 = (_big_int_rows(np, spec[s]['vects'], inv) for s in ('sys0', 'sys1'))
+    O0, O1 = (_big_int_rows(np, spec[s]['origin'], inv) for s in ('sys0', 'sys1'))
+    g = np.random.default_rng(spec['posseed'])
+    n = spec['n']
+    rel = g.integers(0, 9, size=(n, 3))                     # on the 1/8 grid of cell 0: inside, on faces / edges / corners
+    out = g.random(n) < 0.05
+    rel[out] = g.integers(-16, 25, size=(int(out.sum()), 3))
+    P0 = (rel @ V0) // 8 + O0
+    cls = g.integers(0, 5, size=n)
+    small = g.integers(-48, 49, size=(n, 3))
+    m = g.integers(-1, 2, size=(n, 3))
+    frac = g.choice(np.array([15, 16, 16, 17, 20, 24, 28, 32]), size=n)[:, None]
+    jit = g.integers(-2, 3, size=(n, 3))
+    rel1 = g.integers(0, 9, size=(n, 3))
+    cells = g.integers(-3, 4, size=(n, 3))
+    which = g.integers(0, 2, size=n)[:, None]
+    P1 = P0 + small
+    for c, V in ((1, V0), (2, V1)):
+        k_ = cls == c
+        P1[k_] = (P0 + ((m @ V) * frac) // 32 + jit)[k_]
+    k_ = cls == 3
+    P1[k_] = ((rel1 @ V1) // 8 + O1)[k_]
+    k_ = cls == 4
+    P1[k_] = (P0 + small + np.where(which == 0, cells @ V0, cells @ V1))[k_]
+    return {'V0': V0, 'V1': V1, 'O0': O0, 'O1': O1, 'P0': P0, 'P1': P1, 'unit': 2.0 ** spec['k'] / BIG_UNIT, 'inv': inv}
+
+
+def big_row_check(np, P0, P1, V, pbc, rows, inv, dist=None):
+    """every row of `rows` against the property's clauses, exactly, in int64: on the grid, the direct separation plus WHOLE
+    cell vectors along periodic directions only, not longer than any of the <= 27 candidates; `dist` (if given) the length
+    of the shortest candidate within 2 ulp.  Returns the boolean mask of rows that break a clause and the squared length
+    of the shortest candidate."""
+    n = len(P0)
+    d0 = P1 - P0
+    best = None
+    for c in _candidates(pbc):
+        t = d0 + (np.array(c, dtype=np.int64) @ V)
+        q = (t * t).sum(axis=1)
+        best = q if best is None else np.minimum(best, q)
+    bad = np.zeros(n, dtype=bool)
+    if rows is not None:
+        a = np.asarray(rows, dtype=float).reshape(n, 3) * inv
+        ok = np.isfinite(a).all(axis=1) & (np.abs(np.nan_to_num(a)) < 2.0 ** 28).all(axis=1)
+        a = np.where(ok[:, None], np.nan_to_num(a), 0.0)
+        ok &= (a == np.rint(a)).all(axis=1)
+        E = np.rint(a).astype(np.int64)
+        diff = E - d0
+        C = np.array([np.cross(V[1], V[2]), np.cross(V[2], V[0]), np.cross(V[0], V[1])], dtype=np.int64)
+        det = int(V[0] @ C[0])
+        num = diff @ C.T                                     # n_i * det
+        ok &= (num % det == 0).all(axis=1)
+        for i in range(3):
+            if not pbc[i]:
+                ok &= num[:, i] == 0
+        ok &= (E * E).sum(axis=1) <= best
+        bad |= ~ok
+    if dist is not None:
+        dm = np.asarray(dist, dtype=float).reshape(n) * inv
+        want = np.sqrt(best.astype(float))
+        with np.errstate(invalid='ignore'):
+            okd = np.isfinite(dm) & (np.abs(dm - want) <= 2.0 ** -51 * want)
+        bad |= ~okd
+    return bad, best
+
+
+def oracle_bigdisp(ctx, spec, stats, sample_rng=None):
+    """displacement (all four references), am.dvect / am.dmag (many-to-many, one-to-many, many-to-one) and System.dvect /
+    System.dmag with slices on two large systems: all rows screened exactly in int64, the rows that fail (and a sample of
+    the others, the first and last row of every 2^16 block included) then go through `clauses` (exhaustive lattice search
+    for the true-nearest clause, the concrete message)."""
+    import numpy as np
+    import atomman as am
+    S = big_systems(np, spec)
+    n, unit, inv = spec['n'], S['unit'], S['inv']
+    pos0, pos1 = S['P0'].astype(float) * unit, S['P1'].astype(float) * unit
+    keep0, keep1 = pos0.copy(), pos1.copy()
+    s0d, s1d = spec['sys0'], spec['sys1']
+    s0 = _mk_system(am, np, s0d['vects'], s0d['origin'], s0d['pbc'], pos0)
+    s1 = _mk_system(am, np, s1d['vects'], s1d['origin'], s1d['pbc'], pos1)
+    srng = sample_rng or random.Random(spec['posseed'])
+    edges = sorted({r for b in range(0, n, 2 ** 16) for r in (b - 1, b, b + 1) if 0 <= r < n} | {n - 1})
+    base = f"two systems of {n} atoms (specification: posseed={spec['posseed']}, k={spec['k']}, cells '{spec['mode']}'): "
+    stats['big_cases'] = stats.get('big_cases', 0) + 1
+
+    def refof(ref):
+        return {'initial': (s0d, S['V0'], s0), 'final': (s1d, S['V1'], s1), 'default': (s1d, S['V1'], s1)}.get(ref)
+
+    def judge(key, name, r, V, sd, A, B, PA, PB, width, tag):
+        """r = ('ok', value) of one call whose rows pair positions A[k] (ints PA) with B[k] (ints PB) under cell sd."""
+        rep = {'op': 'bigdisp', 'case': spec, 'call': tag}
+        if r[0] == 'err':
+            _viol(ctx, key + ':raises', base + f'{name} raised {r[1]}', rep)
+            return
+        if not _shape_ok(np, r[1], len(PA), width, False):
+            _viol(ctx, key + ':shape', base + f'{name} returned shape {np.asarray(r[1]).shape} for {len(PA)} rows', rep)
+            return
+        bad, _best = big_row_check(np, PA, PB, V, sd['pbc'], r[1] if width == 3 else None, inv,
+                                   dist=r[1] if width == 1 else None)
+        stats['big_rows'] = stats.get('big_rows', 0) + len(PA)
+        nbad = int(bad.sum())
+        worst = [int(x) for x in np.flatnonzero(bad)[:3]]
+        extra = [x for x in edges if x < len(PA)]
+        picks = worst + srng.sample(extra, min(len(extra), 8)) + [srng.randrange(len(PA)) for _ in range(8)]
+        pairs = [(A[k_].tolist(), B[k_].tolist()) for k_ in picks]
+        val = np.asarray(r[1], dtype=float)
+        before = len(ctx.violations)
+        lab = lambda j: base + f'{name} [cell {sd["vects"]}, pbc={sd["pbc"]}] row {picks[j]} = ({pairs[j][0]}, {pairs[j][1]})' + \
+            (f'; {nbad} of {len(PA)} rows break a clause' if nbad else '')
+        if width == 3:
+            clauses(ctx, stats, key + ':', lab, sd['vects'], sd['origin'], sd['pbc'], pairs, [val[k_].tolist() for k_ in picks],
+                    None, True, {**rep, 'rows': picks}, claim=True)
+        else:
+            clauses(ctx, stats, key + ':', lab, sd['vects'], sd['origin'], sd['pbc'], pairs, None, [float(val[k_]) for k_ in picks],
+                    True, {**rep, 'rows': picks}, claim=False)
+        if nbad and len(ctx.violations) == before:
+            _viol(ctx, key + ':rows', base + f'{name}: {nbad} of {len(PA)} rows break a clause, first rows {worst}', rep)
+
+    for ref in BIG_REFS:
+        r = _call(lambda: am.displacement(s0, s1)) if ref == 'default' else \
+            _call(lambda: am.displacement(s0, s1, box_reference=ref))
+        name = f'displacement(box_reference={ref!r})'
+        got = refof(ref)
+        if got is None:
+            if r[0] == 'err' or np.asarray(r[1]).shape != (n, 3) or not np.array_equal(np.asarray(r[1]), keep1 - keep0):
+                _viol(ctx, 'big:disp:none', base + name + ' is not the plain difference of the positions'
+                      + (f' (raised {r[1]})' if r[0] == 'err' else ''), {'op': 'bigdisp', 'case': spec, 'call': 'disp:None'})
+            continue
+        sd, V, _ = got
+        judge('big:disp', name, r, V, sd, keep0, keep1, S['P0'], S['P1'], 3, f'disp:{ref}')
+    # the wrappers themselves on long arrays, under the cell of one of the two systems
+    sd, V, sref = refof(srng.choice(['initial', 'final']))
+    box, pbc = sref.box, sref.pbc
+    judge('big:dvect', 'am.dvect(pos_0, pos_1) many-to-many', _call(lambda: am.dvect(pos0, pos1, box, pbc)), V, sd,
+          keep0, keep1, S['P0'], S['P1'], 3, 'dvect:mm')
+    judge('big:dmag', 'am.dmag(pos_0, pos_1) many-to-many', _call(lambda: am.dmag(pos0, pos1, box, pbc)), V, sd,
+          keep0, keep1, S['P0'], S['P1'], 1, 'dmag:mm')
+    i0 = srng.randrange(n)
+    one = np.broadcast_to(keep0[i0], (n, 3))
+    onei = np.broadcast_to(S['P0'][i0], (n, 3))
+    judge('big:dvect', f'am.dvect(pos_0[{i0}], pos_1) one-to-many', _call(lambda: am.dvect(pos0[i0], pos1, box, pbc)), V, sd,
+          one, keep1, onei, S['P1'], 3, 'dvect:1m')
+    judge('big:dmag', f'am.dmag(pos_1, pos_0[{i0}]) many-to-one', _call(lambda: am.dmag(pos1, pos0[i0], box, pbc)), V, sd,
+          keep1, one, S['P1'], onei, 1, 'dmag:m1')
+    half = n // 2
+    judge('big:sysdvect', f'System.dvect(slice(0, {half}), slice({n - half}, {n}))',
+          _call(lambda: sref.dvect(slice(0, half), slice(n - half, n))), V, sd,
+          (keep0 if sref is s0 else keep1)[:half], (keep0 if sref is s0 else keep1)[n - half:],
+          (S['P0'] if sref is s0 else S['P1'])[:half], (S['P0'] if sref is s0 else S['P1'])[n - half:], 3, 'sys:dvect')
+    judge('big:sysdmag', f'System.dmag({i0}, slice(None))', _call(lambda: sref.dmag(i0, slice(None))), V, sd,
+          np.broadcast_to((keep0 if sref is s0 else keep1)[i0], (n, 3)), keep0 if sref is s0 else keep1,
+          np.broadcast_to((S['P0'] if sref is s0 else S['P1'])[i0], (n, 3)), S['P0'] if sref is s0 else S['P1'], 1, 'sys:dmag')
+    if not (np.array_equal(pos0, keep0) and np.array_equal(pos1, keep1) and
+            np.array_equal(np.asarray(s0.atoms.pos), keep0) and np.array_equal(np.asarray(s1.atoms.pos), keep1)):
+        _viol(ctx, 'big:input-modified', base + 'the calls changed the positions handed in / held by the systems',
+              {'op': 'bigdisp', 'case': spec, 'call': 'inputs'})
+    # unequal atom counts must be refused whatever the size
+    s1m = _mk_system(am, np, s1d['vects'], s1d['origin'], s1d['pbc'], keep1[:-1])
+    r = _call(lambda: am.displacement(s0, s1m, box_reference=srng.choice(['initial', 'final'])))
+    stats['refusals_checked'] += 1
+    if r != ('err', 'value'):
+        _viol(ctx, 'big:refusal:natoms', base + f'displacement with {n} and {n - 1} atoms: ValueError expected, got {r[0]}',
+              {'op': 'bigdisp', 'case': spec, 'call': 'natoms'})
+
+
+def big_sizes(ctx, rng):
+    """sizes of the large cases of one run: always one a little above 2^18 (~263 000), one at a power of two +- 1;
+    thorough: also 2^19 + 1, ~530 000 and 3 * 2^18 + 1."""
+    sizes = [2 ** 18 + rng.randint(2, 2000), rng.choice(BIG_EDGE_SIZES)]
+    if ctx.thorough:
+        sizes += [2 ** 19 + 1, 2 ** 19 + rng.randint(2, 8000), 3 * 2 ** 18 + 1, 2 ** 18 + 1, 2 ** 18]
+    return sizes
 
 
 NEAR_TIE_EPS = [0.0, 1e-16, -1e-16, 1e-15, 1e-14, -1e-14, 1e-13, -1e-13, 1e-12, 1e-11, -1e-11, 1e-10, 1e-9, -1e-9, 1e-8,
@@ -2071,6 +2336,12 @@ def search(ctx, broken):
         check_history(ctx, h, stats)
     for _ in range(ctx.n(200, 2500) * mult):
         oracle_refusal(ctx, rng, stats)
+    sizes = big_sizes(ctx, rng)
+    for n in sizes:                                # large systems: code paths that switch on at a size
+        spec = gen_big_disp(rng, n)
+        ctx.stats.case('oracle:bigdisp', repr(spec), nontrivial=True, sample=spec)
+        oracle_bigdisp(ctx, spec, stats, sample_rng=rng)
+    ctx.extra['big_sizes'] = sizes
     ctx.extra['oracle'] = stats
     if stats['inside_no_claim_not_nearest']:
         ctx.notes.append(f"{stats['inside_no_claim_not_nearest']} in-cell pairs in strongly tilted cells where the 27-candidate "
@@ -2097,6 +2368,12 @@ def replay(ctx, payload):
         print('replay displacement:', 'still fails' if ctx.violations else 'passes now')
         for f in ctx.violations[:3]:
             print('  ', f.what[:600])
+        return
+    if r.get('op') == 'bigdisp':
+        oracle_bigdisp(ctx, r['case'], stats)
+        print(f"replay large systems ({r['case']['n']} atoms, call {r.get('call')}):", 'still fails' if ctx.violations else 'passes now')
+        for f in ctx.violations[:3]:
+            print('  ', f.what[:700])
         return
     if r.get('op') == 'refusal':
         check_refusal(ctx, r['case'], stats)
